@@ -36,7 +36,7 @@ static unsigned pick_idx(void)
 
 static void observe(hwloc_const_bitmap_t b, vset *o)
 {
-  for (unsigned i = 0; i < VS_W; i++) o->bit[i] = (unsigned char)(hwloc_bitmap_isset(b, i) != 0);
+  vs_zero(o); for (unsigned i = 0; i < VS_W; i++) if (hwloc_bitmap_isset(b, i)) vs_set(o, i);
   o->tail = hwloc_bitmap_isset(b, VS_W + 997) != 0;
 }
 
@@ -133,8 +133,8 @@ static void render(struct hv_str *out, const vset *m, int f)
   if (f == 1) { /* list, with separator / spelling variations */
     int i = 0, first = 1;
     while (i < VS_W) {
-      if (!m->bit[i]) { i++; continue; }
-      int j = i; while (j + 1 < VS_W && m->bit[j + 1]) j++;
+      if (!VS_BIT(m, i)) { i++; continue; }
+      int j = i; while (j + 1 < VS_W && VS_BIT(m, j + 1)) j++;
       if (!first) hv_str_add(out, "%s", hv_chance(&R, 1, 8) ? " " : hv_chance(&R, 1, 12) ? ",," : ",");
       first = 0;
       const char *nf = hv_chance(&R, 1, 10) ? "0x%x" : "%d";
@@ -147,11 +147,11 @@ static void render(struct hv_str *out, const vset *m, int f)
   }
   /* hex formats: find the highest word that must be printed */
   int top = VS_W / 32 - 1;
-  if (m->tail) { while (top >= 0) { int all = 1; for (int k = 0; k < 32; k++) if (!m->bit[top * 32 + k]) all = 0; if (!all) break; top--; } }
-  else { while (top > 0) { int any = 0; for (int k = 0; k < 32; k++) if (m->bit[top * 32 + k]) any = 1; if (any) break; top--; } }
+  if (m->tail) { while (top >= 0) { int all = 1; for (int k = 0; k < 32; k++) if (!VS_BIT(m, top * 32 + k)) all = 0; if (!all) break; top--; } }
+  else { while (top > 0) { int any = 0; for (int k = 0; k < 32; k++) if (VS_BIT(m, top * 32 + k)) any = 1; if (any) break; top--; } }
   if (m->tail) hv_str_add(out, "0xf...f");
   for (int w = top; w >= 0; w--) {
-    unsigned v = 0; for (int k = 0; k < 32; k++) if (m->bit[w * 32 + k]) v |= 1u << k;
+    unsigned v = 0; for (int k = 0; k < 32; k++) if (VS_BIT(m, w * 32 + k)) v |= 1u << k;
     if (f == 0) {
       if (w != top || m->tail) hv_str_add(out, ",");
       switch (hv_below(&R, 6)) { case 0: hv_str_add(out, "%x", v); break; case 1: hv_str_add(out, "0x%x", v); break; case 2: hv_str_add(out, "0X%08X", v); break; default: hv_str_add(out, "0x%08x", v); }
